@@ -3,18 +3,23 @@
 (* Trace validation for C11.  One case = one recorded history of the real  *)
 (* commands on one generated project:                                      *)
 (*   o     options of the configured build (prefix, directories, umasks)   *)
+(*         and the effective ids of the installing process                 *)
 (*   plan  the install rules the generator wrote into the build files      *)
+(*   setuprc  exit status of `meson setup` on them                         *)
 (*   t0    listing of DESTDIR before the first command, out0 listing of    *)
 (*         everything else the commands could write                        *)
-(*   ev    events; after each one the observed listing of DESTDIR (`tree`),*)
-(*         of the outside (`out`), the install log (`log`, one entry per   *)
-(*         line: inside DESTDIR or not, path) and the exit status          *)
+(*   ev    events; after each one the observed listing of DESTDIR (`tree`; *)
+(*         per entry: type, st_mode & 07777, st_uid, st_gid, link text,    *)
+(*         content), of the outside (`out`), the install log (`log`, one   *)
+(*         entry per line: inside DESTDIR or not, path) and the exit status*)
 (* Every step is judged from the state observed before it: the tree and    *)
 (* log the rule book (Install!Install, Install!Uninstall) prescribes are   *)
 (* computed from the abstract plan and compared with what was observed.    *)
-(* `touch` (sources edited) and `plant` (a foreign file put below DESTDIR) *)
-(* are actions of the harness; a disagreement there is reported with an    *)
-(* "env:" clause (machinery trouble, not a violation).                     *)
+(* `touch` (sources changed), `plant` (a foreign file put below DESTDIR)   *)
+(* and `age` (an installed file given an old time stamp) are actions of    *)
+(* the harness; a disagreement there is reported with an "env:" clause     *)
+(* (machinery trouble, not a violation).  The time of an installed file is *)
+(* observed (it decides what --only-changed keeps) but never judged.       *)
 (***************************************************************************)
 EXTENDS Install, TLC, Json, IOUtils
 
@@ -23,14 +28,19 @@ Cases == JsonDeserialize(IOEnv.TRACE_FILE)
 VARIABLES i, done
 vars == <<i, done>>
 
-NodeOf(e) == [t |-> e.t, m |-> e.m, l |-> e.l, c |-> e.c]
+NodeOf(e) == [t |-> e.t, m |-> e.m, l |-> e.l, c |-> e.c, u |-> e.u, g |-> e.g, mt |-> e.mt]
 TreeFrom(s) == [ p \in { s[k].p : k \in 1..Len(s) } |-> NodeOf(CHOOSE e \in Rng(s) : e.p = p) ]
 PutT(T, q, n) == [ x \in DOMAIN T \cup {q} |-> IF x = q THEN n ELSE T[x] ]
 
-\* a rule whose sources have been edited has new content everywhere
+\* a rule whose sources have been changed (touched: set of [id, how, mt]): how = "newer" - edited, new content and the
+\* newer time stamp mt;  "sametime" - new content under the old time stamp;  "bump" - old content, newer time stamp
 CurOf(it, touched) ==
-    IF it.id \notin touched THEN it
-    ELSE [it EXCEPT !.st = [k \in 1..Len(it.st) |-> IF it.st[k].t = "file" \/ (it.st[k].t = "link" /\ it.st[k].r = "file") THEN [it.st[k] EXCEPT !.c = @ \o "#1"] ELSE it.st[k]]]
+    IF \A x \in touched : x.id # it.id THEN it
+    ELSE LET x == CHOOSE y \in touched : y.id = it.id IN
+         [it EXCEPT !.st = [k \in 1..Len(it.st) |->
+             IF it.st[k].t = "file" \/ (it.st[k].t = "link" /\ it.st[k].r = "file")
+             THEN [it.st[k] EXCEPT !.c = IF x.how # "bump" THEN @ \o "#1" ELSE @, !.mt = IF x.how # "sametime" THEN x.mt ELSE @]
+             ELSE it.st[k]]]
 
 RECURSIVE SetSeq(_)
 SetSeq(S) == IF S = {} THEN <<>> ELSE LET x == CHOOSE x \in S : TRUE IN <<x>> \o SetSeq(S \ {x})
@@ -64,25 +74,25 @@ JudgeInstall(c, st, ev, k) ==
         lp   == InLog(ins)
     IN (IF ev.rc # 0 THEN <<Fail(k, "CommandSucceeds", NoDiff)>> ELSE <<>>)
        \o (IF Rng(ev.out) # Rng(st.out) THEN <<Fail(k, "Confined", SetDiff(Rng(st.out), Rng(ev.out)))>> ELSE <<>>)
-       \o (IF O # e.tree THEN <<[Fail(k, IF a.dry THEN "DryRunNoop" ELSE "Exact", TreeDiff(e.tree, O))
-                                   EXCEPT !.owners = Owners(c.o, plan, DiffPaths(TreeDiff(e.tree, O)))]>> ELSE <<>>)
+       \o (IF Obs(O) # Obs(e.tree) THEN <<[Fail(k, IF a.dry THEN "DryRunNoop" ELSE "Exact", TreeDiff(Obs(e.tree), Obs(O)))
+                                   EXCEPT !.owners = Owners(c.o, plan, DiffPaths(TreeDiff(Obs(e.tree), Obs(O))))]>> ELSE <<>>)
        \o (IF Rng(lp) # e.log \/ Len(ins) # Len(ev.log)
            THEN <<[Fail(k, "LogNamesCreated", [SetDiff(e.log, Rng(lp)) EXCEPT !.changed = SetSeq({ x.p : x \in { y \in Rng(ev.log) : ~y.inside } })])
                    EXCEPT !.owners = Owners(c.o, plan, e.log \ Rng(lp))]>>
            ELSE IF ~LogNoDup(lp) \/ ~LogOrdered(lp) THEN <<Fail(k, "LogWellFormed", NoDiff)>> ELSE <<>>)
-       \o (IF ~a.dry /\ st.lasta = <<a>> /\ O # st.tree THEN <<Fail(k, "Idempotent", TreeDiff(st.tree, O))>> ELSE <<>>)
+       \o (IF ~a.dry /\ st.lasta = <<a>> /\ Obs(O) # Obs(st.tree) THEN <<Fail(k, "Idempotent", TreeDiff(Obs(st.tree), Obs(O)))>> ELSE <<>>)
 
 JudgeUninstall(c, st, ev, k) ==
     LET E == Uninstall(st.tree, InLog(LogInside(st.log)))
         O == TreeFrom(ev.tree)
     IN (IF ev.rc # 0 THEN <<Fail(k, "CommandSucceeds", NoDiff)>> ELSE <<>>)
        \o (IF Rng(ev.out) # Rng(st.out) THEN <<Fail(k, "Confined", SetDiff(Rng(st.out), Rng(ev.out)))>> ELSE <<>>)
-       \o (IF O # E THEN <<Fail(k, "UninstallRemovesExactlyLog", TreeDiff(E, O))>> ELSE <<>>)
+       \o (IF Obs(O) # Obs(E) THEN <<Fail(k, "UninstallRemovesExactlyLog", TreeDiff(Obs(E), Obs(O)))>> ELSE <<>>)
 
 JudgeEnv(c, st, ev, k) ==
     LET O == TreeFrom(ev.tree)
-        E == IF ev.op = "plant" THEN PutT(st.tree, ev.p, File(ev.m, ev.c)) ELSE st.tree
-    IN IF O # E THEN <<Fail(k, "env:" \o ev.op, TreeDiff(E, O))>> ELSE <<>>
+        E == IF ev.op = "plant" THEN PutT(st.tree, ev.p, File(ev.m, ev.c, c.o.uid, c.o.gid, 0)) ELSE st.tree
+    IN IF Obs(O) # Obs(E) THEN <<Fail(k, "env:" \o ev.op, TreeDiff(Obs(E), Obs(O)))>> ELSE <<>>
 
 RECURSIVE Run(_, _, _, _)
 Run(c, st, k, acc) ==
@@ -94,7 +104,7 @@ Run(c, st, k, acc) ==
              st2 == [tree    |-> TreeFrom(ev.tree),
                      out     |-> ev.out,
                      log     |-> IF ev.op = "install" THEN ev.log ELSE st.log,
-                     touched |-> IF ev.op = "touch" THEN st.touched \cup Rng(ev.ids) ELSE st.touched,
+                     touched |-> IF ev.op = "touch" THEN st.touched \cup { [id |-> x, how |-> ev.how, mt |-> ev.mt] : x \in Rng(ev.ids) } ELSE st.touched,
                      lasta   |-> IF ev.op = "install" /\ ~ev.dry THEN <<ArgsOf(ev)>> ELSE <<>>]
          IN Run(c, st2, k + 1, acc \o f)
 
@@ -114,6 +124,9 @@ Judge(c) ==
         st0  == [tree |-> TreeFrom(c.t0), out |-> c.out0, log |-> <<>>, touched |-> {}, lasta |-> <<>>]
         fails == IF Cardinality(plan) # Len(c.plan) \/ ~ConflictFree(plan, c.o)
                  THEN <<Fail(0, "env:conflicting-plan", NoDiff)>>
+                 \* every conflict-free plan of the rule book is a build definition `meson setup` has to accept (an
+                 \* install_mode is a permission string or false, then owners / groups as names or numbers - any number)
+                 ELSE IF c.setuprc # 0 THEN <<Fail(0, "DefinitionAccepted", NoDiff)>>
                  ELSE JudgeIntro(c) \o Run(c, st0, 1, <<>>)
     IN [id |-> c.id, clause |-> IF fails = <<>> THEN "ok" ELSE fails[1].clause, fails |-> fails]
 
